@@ -87,6 +87,7 @@ CHECKS = {
          'DESIGN.md §5 C20',
          T),
 }
+FUZZED = {'C01','C02','C03','C04','C05','C06','C07','C08','C09','C10','C11','C13','C15','C16','C17','C18','C19','C20'}
 NOT_YET = {}
 
 def main():
@@ -97,6 +98,9 @@ def main():
         i = p["id"]
         if i in CHECKS:
             tech, text, ref, note = CHECKS[i]
+            tech = tech.replace("; (thorough) libFuzzer target rx_stream", "").replace("; (thorough) libFuzzer target tx_ops", "")
+            if i in FUZZED:
+                tech += "; thorough tier adds a coverage-guided libFuzzer campaign (target part_fuzz, hand-written arbitrary::Unstructured decoder, same oracle)"
             checks.append({
                 "property_id": i,
                 "quick_cmd": f"./check {i} quick",
@@ -121,6 +125,8 @@ def main():
             "add_only": True,
         },
         "engines": [
+            {"name": "part_fuzz", "path": "/verif/harness/fuzz", "serves_properties": sorted(FUZZED),
+             "kind_free_text": "cargo-fuzz / libFuzzer target; VERIF_FUZZ_TARGET=<ID>/<part> selects the generated part whose case type the input bytes are decoded into; the part's own oracle judges the case; violations are saved as ordinary replay files and re-validated by vcheck --replay; driven by fuzz/run.sh in the thorough tiers"},
             {"name": "gse_verif", "path": "/verif/harness", "serves_properties": sorted(CHECKS.keys()),
              "kind_free_text": "Rust binary `vcheck`: proptest 1.11 used as a library (fixed seeds derived from VERIF_SEED, no persistence, 16 shards), exhaustive enumerators for closed sub-spaces, independent oracles (bitwise CRC, RefCodec, reference receiver/memory models, ledger memory), JSON replay files"},
         ],
